@@ -1,4 +1,5 @@
 import SpecVerif.Mpx.Flow
+import SpecVerif.Mpx.Client
 /-
 Line protocol of the flow-control correspondence (C07): one script per line
   `<W> <op> <op> ...`   ops: `s<n>` Send of n bytes (ignored while a Send is pending), `c` the
@@ -67,10 +68,19 @@ def runScript (line : String) : String :=
     | none => "bad-op"
   | _ => "bad-op"
 
+/-- `backoff <attempt>` → `backoff <attempt> <nanoseconds>` (C19) -/
+def answer (line : String) : String :=
+  match line.splitOn " " with
+  | ["backoff", a] =>
+    (match a.toNat? with
+     | some n => "backoff " ++ a ++ " " ++ toString (SpecVerif.Mpx.Client.reconnectTimeout n)
+     | none => "bad-op")
+  | _ => runScript line
+
 partial def loop (h : IO.FS.Stream) (out : IO.FS.Stream) : IO Unit := do
   let line ← h.getLine
   if line.isEmpty then return ()
-  out.putStrLn (runScript line.trimAsciiEnd.toString)
+  out.putStrLn (answer line.trimAsciiEnd.toString)
   loop h out
 
 def main : IO Unit := do
